@@ -7,33 +7,33 @@ PY = "/venv/bin/python"
 CHECKS = {
  "C13": dict(category="model_checking", design="DESIGN.md §5 C13",
    technique="explicit-state BFS over merge/delete histories on the real functions, lock-step lumping model; exhaustive deletion sets n<=12",
-   text="Every merge/delete history up to depth 3 over the full subset alphabet on 4-cell matrices (depth 2 on 5 cells), all 2^n-2 deletion sets and all single-group merges for n=9..12, and the cut_and_merge limit/energy menu are executed on the real code (dense and csr in lock-step) and compared exactly with a union-find lumping model; histories are the quantifier of the property, so a bounded-exhaustive history exploration is the right level. Added: power-of-two scaled base matrices (2^-34, 2^-60, 2^27) so that absolute-tolerance shortcuts show while arithmetic stays exact.",
+   text="Every merge/delete history up to depth 3 over the full subset alphabet on 4-cell matrices (depth 2 on 5 cells), all 2^n-2 deletion sets and all single-group merges for n=9..12, and the cut_and_merge limit/energy menu are executed on the real code (dense and csr in lock-step) and compared exactly with a union-find lumping model; histories are the quantifier of the property, so a bounded-exhaustive history exploration is the right level. Added: power-of-two scaled base matrices (2^-34, 2^-60, 2^27) so that absolute-tolerance shortcuts show while arithmetic stays exact. Later rounds added: delete([]) as an event, cut_and_merge on a base whose rows do not sum to zero, 24- and 40-cell matrices with 8-step structured histories.",
    note="Trusted: the 60-line union-find/lumping model in checks/c13.py; integer base matrices (exact arithmetic). Bound: n<=6 for deep histories, n<=12 for depth 1-2."),
 
  "C12": dict(category="model_checking", design="DESIGN.md §5 C12",
    technique="explicit-state BFS over all trajectories (append-one-symbol events) with counting model and incremental window conformance",
-   text="Every assigned trajectory over {0,1,2,NaN} up to length 6 (thorough 8; second alphabet with 4-5 cells) is a state; in every state the real MSM matrix for every tau in 1..4 (also tau > length), both window modes and two cell counts is compared entry-for-entry with the counting model, and the real window generators are compared incrementally with the parent state. Off-by-one and NaN-handling errors live at trajectory ends, which is exactly what all short sequences cover. Added: query pairs/triples on ONE MSM instance, and the multi-tau getter with ascending, descending and mixed tau orders in both modes.",
+   text="Every assigned trajectory over {0,1,2,NaN} up to length 6 (thorough 8; second alphabet with 4-5 cells) is a state; in every state the real MSM matrix for every tau in 1..4 (also tau > length), both window modes and two cell counts is compared entry-for-entry with the counting model, and the real window generators are compared incrementally with the parent state. Off-by-one and NaN-handling errors live at trajectory ends, which is exactly what all short sequences cover. Added: query pairs/triples on ONE MSM instance, and the multi-tau getter with ascending, descending and mixed tau orders in both modes. Later rounds added: trajectories of 65 537 and 100 003 frames against a vectorised counting model, truthy/falsy non-bool mode flags, integer-dtype trajectories.",
    note="Trusted: 30-line counting model transcribed from the statement. Bound: length <= 6/8, <= 5 symbols."),
  "C01": dict(category="exploration", design="DESIGN.md §5 C01",
    technique="exhaustive enumeration of sparsity patterns x energy alphabet x storage forms against a dense-loop oracle",
-   text="All symmetric sparsity patterns on 2..5 nodes x all energy vectors over a 5-letter alphabet that straddles the 500 kJ/mol cap x csr/coo storage pairs x temperatures are built with the real SQRA.get_rate_matrix and compared with the formula entry by entry, plus row sums, detailed balance per pair, shift invariance and linearity in D. Added after seeded changes: all (D,T) call words of length 3 on ONE SQRA instance (state must not leak between calls), wide energy spans (4800 / -2500 kJ/mol) at 100-1000 K, integer-dtype volumes and energies.",
+   text="All symmetric sparsity patterns on 2..5 nodes x all energy vectors over a 5-letter alphabet that straddles the 500 kJ/mol cap x csr/coo storage pairs x temperatures are built with the real SQRA.get_rate_matrix and compared with the formula entry by entry, plus row sums, detailed balance per pair, shift invariance and linearity in D. Added after seeded changes: all (D,T) call words of length 3 on ONE SQRA instance (state must not leak between calls), wide energy spans (4800 / -2500 kJ/mol) at 100-1000 K, integer-dtype volumes and energies. Later rounds added: temperatures 60-2000 K with differences just below the cap, larger structured patterns (ring, star, lattice, components with 40-60 cells).",
    note="Trusted: the dense double-loop oracle; fixed prime-based S, h, V tables. Real-valued inputs are represented by a structured finite alphabet only."),
  "C16": dict(category="exploration", design="DESIGN.md §5 C16",
    technique="exhaustive enumeration of the radial-grid input grammar against an exact-rational oracle",
-   text="Every string of the stated grammar (lists/tuples of up to 3-4 decimals in every order with whitespace variants, linspace and range/arange parameterisations, lists with a negative entry) is parsed by the real TranslationParser and compared with intended values computed in fractions.Fraction; increments, shell boundaries, interleaving and identifier consistency are checked on every result. Added: range/arange on a grid of tenths with 1-3 arguments, tiny negatives (-1e-12 ... -1e-8) in every syntax.",
+   text="Every string of the stated grammar (lists/tuples of up to 3-4 decimals in every order with whitespace variants, linspace and range/arange parameterisations, lists with a negative entry) is parsed by the real TranslationParser and compared with intended values computed in fractions.Fraction; increments, shell boundaries, interleaving and identifier consistency are checked on every result. Added: range/arange on a grid of tenths with 1-3 arguments, tiny negatives (-1e-12 ... -1e-8) in every syntax. Later rounds added: alternative spellings of decimals, descending linspace / negative-step range (this exposed and led to fix F15), all 4- and 5-subsets of the tenths, list twins spelled with repr() of generated floats (identifier).",
    note="Trusted: Fraction arithmetic oracle. Bound: decimals from an 8-value menu, list length <= 4."),
  "C17": dict(category="exploration", design="DESIGN.md §5 C17",
    technique="exhaustive enumeration of the grid-name token language (<=3/4 tokens, both roles) against stated constraints",
-   text="Every underscore-joined name of up to 3 (thorough 4) tokens over a 22-token alphabet is parsed for both roles; only the constraints in the statement are asserted (ValueError or valid algorithm_N, N=1 iff zero algorithm, default algorithm, ambiguity rejected, fixed point, constructible).",
+   text="Every underscore-joined name of up to 3 (thorough 4) tokens over a 22-token alphabet is parsed for both roles; only the constraints in the statement are asserted (ValueError or valid algorithm_N, N=1 iff zero algorithm, default algorithm, ambiguity rejected, fixed point, constructible). Later rounds added: tokens 8 and 40, fulldiv may raise ValueError only for non-admissible sizes.",
    note="Trusted: constraint predicates in checks/c17.py. Dimension-tag tokens are excluded as the statement leaves them open."),
  "C19": dict(category="exploration", design="DESIGN.md §5 C19",
    technique="exhaustive enumeration of the small-size configuration box x getters, outcome classification",
-   text="The full box n_b x n_o in 1..5 (thorough 1..8 and all algorithms) x 1-3 radii x both position modes is constructed and all five getters are called; each outcome must be an array of the right shape or ValueError (QhullError only in Cartesian mode with <3 directions). Added: every getter is called twice on one object in forward-then-reverse order and, on a second object, reverse-then-forward.",
+   text="The full box n_b x n_o in 1..5 (thorough 1..8 and all algorithms) x 1-3 radii x both position modes is constructed and all five getters are called; each outcome must be an array of the right shape or ValueError (QhullError only in Cartesian mode with <3 directions). Added: every getter is called twice on one object in forward-then-reverse order and, on a second object, reverse-then-forward. Later rounds added: fulldiv names in the box.",
    note="Trusted: outcome classification only (values are the subject of C02-C06)."),
 
  "C03": dict(category="exploration", design="DESIGN.md §3 O-S2, §5 C03",
    technique="exhaustive enumeration over every N and every pair against an independent arc-clipping spherical Voronoi oracle",
-   text="For ico, cube3D and randomS and EVERY N in 4..130 (thorough 4..330 plus level boundaries up to 1000) every pair (i,j) of the real grid's adjacency, border and distance matrices and every cell area is compared with a Qhull-free oracle that clips bisector great circles; symmetry, diagonal, common pattern, entry order and the 4 pi sum are checked on every grid. Added: all getter words of length <= 3 (exact/approx areas, adjacency, borders, distances) on one grid object, compared bitwise with the first call on a fresh object.",
+   text="For ico, cube3D and randomS and EVERY N in 4..130 (thorough 4..330 plus level boundaries up to 1000) every pair (i,j) of the real grid's adjacency, border and distance matrices and every cell area is compared with a Qhull-free oracle that clips bisector great circles; symmetry, diagonal, common pattern, entry order and the 4 pi sum are checked on every grid. Added: all getter words of length <= 3 (exact/approx areas, adjacency, borders, distances) on one grid object, compared bitwise with the first call on a fresh object. Later rounds added: the grid-level getter grid.get_voronoi_volumes() read next to the Voronoi object's areas.",
    note="Trusted: mc/oracles/s2.py (closed-form arc intersection, Van Oosterom-Strackee areas). Tolerance 1e-7."),
  "C04": dict(category="exploration", design="DESIGN.md §3 O-S3, §5 C04",
    technique="exhaustive enumeration over every N and every pair against a gnomonic polygon-clipping S^3 Voronoi oracle folded over sign",
@@ -41,52 +41,52 @@ CHECKS = {
    note="Trusted: mc/oracles/s3.py. Border tolerance 1e-6 (measured 3e-9 after fix F14); borders of two-face pairs are not compared (left open by the statement)."),
  "C05": dict(category="exploration", design="DESIGN.md §5 C05",
    technique="exhaustive enumeration of direction grids x radial grids, every cell and pair against closed forms on the O-S2 oracle",
-   text="3 algorithms x every N in 4..45, 63, 64 (thorough every N 4..64 with 13 radial grids) x 8 radial grids with unequal increments, unsorted input and every syntax: every cell volume and every ordered pair's adjacency/border/distance is compared with the closed forms of the statement built on the independent spherical Voronoi oracle, plus the three sum rules. Added: all getter words of length <= 3 on one PositionGrid; two-argument range() radial input.",
+   text="3 algorithms x every N in 4..45, 63, 64 (thorough every N 4..64 with 13 radial grids) x 8 radial grids with unequal increments, unsorted input and every syntax: every cell volume and every ordered pair's adjacency/border/distance is compared with the closed forms of the statement built on the independent spherical Voronoi oracle, plus the three sum rules. Added: all getter words of length <= 3 on one PositionGrid; two-argument range() radial input. Later rounds added: 8-12 shells, N = 98/162, nearly coincident and very different radii.",
    note="Trusted: O-S2 and 40 lines of closed forms; radii of the oracle come from exact rationals. Tolerance 1e-7 relative."),
  "C06": dict(category="exploration", design="DESIGN.md §3 O-E3, §5 C06",
    technique="exhaustive enumeration over every N x radial grids against a Qhull-free cone/slab closed form of the Euclidean Voronoi cells (Qhull ridge areas as oracle self-check)",
-   text="3 algorithms x every N in 4..45 plus 48..55, 80, 92, 98, 100, 162 (thorough every N to 100) x radial grids incl. the shipped 10-shell default in Cartesian mode: every cell volume, every adjacent pair's planar face area and Euclidean distance is compared with the exact cone-over-spherical-cell closed form; positivity, symmetry, pattern and entry order are checked. Open-cell grids (F6) are reported as known findings. Added: all getter words of length <= 3 on one Cartesian PositionGrid.",
+   text="3 algorithms x every N in 4..45 plus 48..55, 80, 92, 98, 100, 162 (thorough every N to 100) x radial grids incl. the shipped 10-shell default in Cartesian mode: every cell volume, every adjacent pair's planar face area and Euclidean distance is compared with the exact cone-over-spherical-cell closed form; positivity, symmetry, pattern and entry order are checked. Open-cell grids (F6) are reported as known findings. Added: all getter words of length <= 3 on one Cartesian PositionGrid. Later rounds added: the FullGrid-level route (n_b=1, f=1) to the Cartesian matrices, nearly coincident radii, and an own key for any value other than the documented 0.0 reported for an unbounded cell (so the listed finding F6 only matches its exact signature).",
    note="Trusted: cone/slab argument (DESIGN O-E3) + O-S2; cross-checked against convex-hull areas of scipy Voronoi ridges on one radial grid per (alg, N). Tolerance 1e-6 relative."),
  "C15": dict(category="exploration", design="DESIGN.md §3 O-MC, §5 C15",
    technique="exhaustive enumeration over every N and every cell against the Monte-Carlo nearest-rotation measure prescribed by the property",
-   text="cube4D and randomQ x every N in 1..40 (thorough 1..80, 100, 272): every cell volume is compared with the measure of its nearest-rotation region estimated from 400000 uniform points on S^3 (private PCG64 stream), plus positivity, first-N-of-2N, the 12 % sum band and the equal-share rule for N<4. The exploration over N and cells is exhaustive; only the oracle is statistical, as the property defines it.",
+   text="cube4D and randomQ x every N in 1..40 (thorough 1..80, 100, 272): every cell volume is compared with the measure of its nearest-rotation region estimated from 400000 uniform points on S^3 (private PCG64 stream), plus positivity, first-N-of-2N, the 12 % sum band and the equal-share rule for N<4. The exploration over N and cells is exhaustive; only the oracle is statistical, as the property defines it. Later rounds added: N = 113 (quick) and 150, 420 (thorough), the grid-level getter.",
    note="A cell is flagged only beyond 30 % + 5 standard errors, so oracle noise cannot raise an alarm. F10 (randomQ_5 cell 4) is a listed finding."),
  "C02": dict(category="exploration", design="DESIGN.md §5 C02",
    technique="exhaustive enumeration of grid combinations; every pair of cells against an independent Kronecker-sum composition of the factor matrices",
-   text="7 rotation grids x 12 direction grids x 3 radial grids x both modes x factors {1,2,0.5} (thorough: n_b up to 20, n_o up to 20): all three full matrices are compared entry by entry with kron(position, I) + kron(I, rotation) built from the package's own factor getters, with f / f^2 on either family; symmetry, diagonal, positivity, stored entry order, volumes and row order of the grid array are checked. Added: all pairs of 8 getters and all triples of the 4 matrix getters on ONE FullGrid (every observation bitwise equal to the first call on a fresh object), an independent arccos|q.q| check of the rotation factor, rotation grids with sliver faces.",
+   text="7 rotation grids x 12 direction grids x 3 radial grids x both modes x factors {1,2,0.5} (thorough: n_b up to 20, n_o up to 20): all three full matrices are compared entry by entry with kron(position, I) + kron(I, rotation) built from the package's own factor getters, with f / f^2 on either family; symmetry, diagonal, positivity, stored entry order, volumes and row order of the grid array are checked. Added: all pairs of 8 getters and all triples of the 4 matrix getters on ONE FullGrid (every observation bitwise equal to the first call on a fresh object), an independent arccos|q.q| check of the rotation factor, rotation grids with sliver faces. Later rounds added: get_full_prefactors values, position-only / rotation-only adjacency, a single-position grid in the getter-order histories.",
    note="The factor matrices themselves are verified by C03-C06; this check is about composition only. Symmetry is asserted to 1e-12 relative (mirror-image faces are computed separately)."),
 
  "C07": dict(category="exploration", design="DESIGN.md §5 C07",
    technique="exhaustive enumeration over every N per algorithm plus every prefix length of the polytope node arrays",
-   text="Every N in 1..130 plus every subdivision-level boundary +-1 up to 643 (thorough: every N to 400, comb to 2562) for ico/cube3D/randomS, every N in 1..42 (thorough 1..272) for cube4D/randomQ, fulldiv sizes, zero grids and N=1 by name are built through the factory and checked for shape, unit norm, pairwise (sign-folded) distinctness, separation bounds, canonical hemisphere and the exact [G; -G] layout; all prefixes of the level-3/4 and 4-D level-2 node arrays are swept incrementally. Added: the time_generation=True code path for every algorithm, and zero grids requested directly with N != 1 (lenient contract: ValueError, or 1 or N distinct unit rows).",
+   text="Every N in 1..130 plus every subdivision-level boundary +-1 up to 643 (thorough: every N to 400, comb to 2562) for ico/cube3D/randomS, every N in 1..42 (thorough 1..272) for cube4D/randomQ, fulldiv sizes, zero grids and N=1 by name are built through the factory and checked for shape, unit norm, pairwise (sign-folded) distinctness, separation bounds, canonical hemisphere and the exact [G; -G] layout; all prefixes of the level-3/4 and 4-D level-2 node arrays are swept incrementally. Added: the time_generation=True code path for every algorithm, and zero grids requested directly with N != 1 (lenient contract: ValueError, or 1 or N distinct unit rows). Later rounds added: top-of-range N (2560-2562, 1536-1538), randomQ_207, non-admissible fulldiv sizes must raise ValueError.",
    note="Trusted: direct predicates. Separation bounds only for polytope algorithms."),
  "C08": dict(category="model_checking", design="DESIGN.md §2.1, §5 C08",
    technique="explicit-state BFS over create/get/reseed/draw/divide histories on live grid objects; bitwise comparison with a reference table from fresh subprocesses",
-   text="All histories up to depth 2 (thorough 3) over an alphabet of 8 grid specs x 6 getters + global-RNG reseed/draw + further subdivision are executed on live objects; states are digests of every mutable object field plus numpy's global RNG state; every observation must equal, bit for bit, the first call on a fresh object in a fresh process (table built in subprocesses under three PYTHONHASHSEED values). Long getter-order histories per spec and the prefix claim for every N <= Nmax are added. Added: every case runs in its own forked child (process-global state is the subject), the approx-volume getter, FullGrid-level specs in shell and Cartesian mode with the same sub-grids, and cross-object histories (build A, build B, read B then A) with RNG events in between.",
+   text="All histories up to depth 2 (thorough 3) over an alphabet of 8 grid specs x 6 getters + global-RNG reseed/draw + further subdivision are executed on live objects; states are digests of every mutable object field plus numpy's global RNG state; every observation must equal, bit for bit, the first call on a fresh object in a fresh process (table built in subprocesses under three PYTHONHASHSEED values). Long getter-order histories per spec and the prefix claim for every N <= Nmax are added. Added: every case runs in its own forked child (process-global state is the subject), the approx-volume getter, FullGrid-level specs in shell and Cartesian mode with the same sub-grids, and cross-object histories (build A, build B, read B then A) with RNG events in between. Later rounds added: grids from deeper subdivision levels compared across four PYTHONHASHSEED values, a prefactors getter, a single-position FullGrid and a Cartesian grid with unbounded cells among the specs.",
    note="Trusted: sha256 of raw bytes. The initial RNG state is fixed by the harness and then varied by events. Bound: depth 2/3, N <= 64/200 (3-D) and 24/80 (4-D) for prefixes."),
  "C09": dict(category="exploration", design="DESIGN.md §5 C09",
    technique="exhaustive enumeration of grid combinations; every row and every small index subset against an independent row formula",
-   text="6 rotation x 6 direction x 4 radial grids (thorough wider): every row equals radius[t]*direction[o] ++ rotation[n mod n_b] built from separately constructed grids and exact-rational radii; index helpers are checked for None, every single index, every ordered pair (n<=40), prefixes, suffixes and strided slices; the decomposition returns the generating grids in order. Added: a 68040-row grid crossing 2^15 position cells and 2^16 rows (index dtype), repeated calls and input-preservation of the decomposition.",
+   text="6 rotation x 6 direction x 4 radial grids (thorough wider): every row equals radius[t]*direction[o] ++ rotation[n mod n_b] built from separately constructed grids and exact-rational radii; index helpers are checked for None, every single index, every ordered pair (n<=40), prefixes, suffixes and strided slices; the decomposition returns the generating grids in order. Added: a 68040-row grid crossing 2^15 position cells and 2^16 rows (index dtype), repeated calls and input-preservation of the decomposition. Later rounds added: boolean masks, negative indices and python lists as index subsets, nearly coincident shells, a float-step range() radial text.",
    note="Trusted: divmod formula in checks/c09.py."),
  "C10": dict(category="model_checking", design="DESIGN.md §5 C10",
    technique="exhaustive frame-by-frame comparison with an independent rigid-motion oracle, plus per-frame differential replay from the initial state",
-   text="5 (thorough 7) second molecules incl. single atom, planar and asymmetric ones x 2 first molecules x real grids and non-grid arrays (12 positions x (24 cube rotations + 30 generic quaternions)): every frame and atom equals R(q_k)(ref - com) + pos_k with an own scalar-last quaternion formula; since the generator mutates one live molecule, every 7th frame (all for small arrays) is re-derived from the initial state by a single-row pseudotrajectory and must agree. Added: a special-quaternion array (rotations of 0.01-1 degree, ~pi, -q, un-normalised), arrays whose quaternions repeat non-periodically (orientation-slow, shuffled, repeats), frames kept from generate_pseudotrajectory() and inspected after exhaustion (aliasing), and all call words <= 3 over write_structure / pt_universe / write_full_pt on the package's PtWriter incl. the files written.",
+   text="5 (thorough 7) second molecules incl. single atom, planar and asymmetric ones x 2 first molecules x real grids and non-grid arrays (12 positions x (24 cube rotations + 30 generic quaternions)): every frame and atom equals R(q_k)(ref - com) + pos_k with an own scalar-last quaternion formula; since the generator mutates one live molecule, every 7th frame (all for small arrays) is re-derived from the initial state by a single-row pseudotrajectory and must agree. Added: a special-quaternion array (rotations of 0.01-1 degree, ~pi, -q, un-normalised), arrays whose quaternions repeat non-periodically (orientation-slow, shuffled, repeats), frames kept from generate_pseudotrajectory() and inspected after exhaustion (aliasing), and all call words <= 3 over write_structure / pt_universe / write_full_pt on the package's PtWriter incl. the files written. Later rounds added: a 17100-row array, PtWriter directory mode (files not zero padded), one-molecule views incl. in-place modification of the returned universe.",
    note="Trusted: quaternion formula in mc/molecules.py; tolerance 5e-5 Angstrom (float32 coordinates; measured deviation 5e-7)."),
  "C11": dict(category="exploration", design="DESIGN.md §5 C11",
    technique="exhaustive enumeration of a finite placement lattice against an independent nearest-cell search with ambiguity margin",
-   text="3 grids (thorough 6) x 3 molecules x include_outliers x metric flag: every placement of (generic + grid rotations) x (rotated Fibonacci + grid directions) x distances straddling every shell boundary and the outer bound is assigned by the real AssignmentTool and compared with nearest shell / direction / rotation; the grid's own pseudotrajectory must be assigned to 0,1,2,... Added: the whole system rigidly translated (first molecule away from the origin) must give the same cells.",
+   text="3 grids (thorough 6) x 3 molecules x include_outliers x metric flag: every placement of (generic + grid rotations) x (rotated Fibonacci + grid directions) x distances straddling every shell boundary and the outer bound is assigned by the real AssignmentTool and compared with nearest shell / direction / rotation; the grid's own pseudotrajectory must be assigned to 0,1,2,... Added: the whole system rigidly translated (first molecule away from the origin) must give the same cells. Later rounds added: the mirror-image molecule, distances just inside/outside every interior shell boundary.",
    note="The continuous placement space is represented by a finite lattice; placements within 1e-3 of a boundary are skipped (counted)."),
  "C14": dict(category="exploration", design="DESIGN.md §5 C14",
    technique="exhaustive enumeration of grid/energy/temperature/solver configurations end to end through the file system, ARPACK start vector enumerated via the eigs seam",
-   text="160 grid configurations (thorough ~580) are written with GridWriter, read with GridReader and turned into rate matrices for 2 landscapes x 2 temperatures: detailed balance w.r.t. V exp(-E/RT) for every pair and pattern = saved adjacency; for a quarter (thorough: all) the decomposition is run for 4 solver settings x k in {6,12} x 3 start vectors and compared with a dense eigen-solver (order, values, zero, stationary vector). Added: solver tolerance enumerated (1e-10 and the workflow default 1e-5; F11 is reproduced and listed), a negative shift inside the spectrum (k nearest eigenvalues), energies with a huge common offset (-4e5 and +3700 kJ/mol).",
+   text="160 grid configurations (thorough ~580) are written with GridWriter, read with GridReader and turned into rate matrices for 2 landscapes x 2 temperatures: detailed balance w.r.t. V exp(-E/RT) for every pair and pattern = saved adjacency; for a quarter (thorough: all) the decomposition is run for 4 solver settings x k in {6,12} x 3 start vectors and compared with a dense eigen-solver (order, values, zero, stationary vector). Added: solver tolerance enumerated (1e-10 and the workflow default 1e-5; F11 is reproduced and listed), a negative shift inside the spectrum (k nearest eigenvalues), energies with a huge common offset (-4e5 and +3700 kJ/mol). Later rounds added: T = 180 K with a deep-well landscape, metastable two-basin landscapes (barrier scan, six start vectors; order and values only when the gap is below 1e-7*||Q||), integer energies, rotation grids with sliver faces.",
    note="ARPACK non-convergence (an explicit solver exception) is counted, not judged. Start vectors are enumerated over 3 values only."),
  "C18": dict(category="model_checking", design="DESIGN.md §5 C18",
    technique="exhaustive enumeration of subdivision/getter histories on real polytopes; state-wise set equality with independently generated ideal lattices",
-   text="Every word over {divide, get} with at most L divisions (ico 4, cube3D 4, cube4D 2; thorough ico 5) is run on a fresh polytope; after every step the node set equals the ideal lattice (KD-tree, 1e-9, multiplicity 1), projections, negation closure, index range, level order, index permanence across the history, getter/cache consistency and the half-hypercube selection are checked. Added: read-only adjacency/antipode queries as a third event (node attributes must stay untouched).",
+   text="Every word over {divide, get} with at most L divisions (ico 4, cube3D 4, cube4D 2; thorough ico 5) is run on a fresh polytope; after every step the node set equals the ideal lattice (KD-tree, 1e-9, multiplicity 1), projections, negation closure, index range, level order, index permanence across the history, getter/cache consistency and the half-hypercube selection are checked. Added: read-only adjacency/antipode queries as a third event (node attributes must stay untouched). Later rounds added: plotting helpers (get_N_element_graph, get_all_cells, get_cdist_matrix) inside the read-only query event.",
    note="Trusted: lattice generators in checks/c18.py. cube4D level 3 is outside the bound."),
  "C20": dict(category="exploration", design="DESIGN.md §5 C20",
    technique="exhaustive enumeration of small grids and of the xvg header/legend/row family; byte-exact round-trip comparison",
-   text="Every constructible grid of the n_b x n_o box x 3 radial grids x both modes plus 6 mid-size grids is written and read back and compared byte for byte (dtype, shape, sparse format, stored entry order) with a separately built in-memory grid; 1260 xvg files (every '#'-count 0..13 x header length x 1..10 legends x row counts) are parsed and compared with the text, incl. single-column getter and csv round trip. Added: write/read histories that re-use the same paths and the same reader for different grids, call histories on one EnergyReader, files with repeated time stamps.",
+   text="Every constructible grid of the n_b x n_o box x 3 radial grids x both modes plus 6 mid-size grids is written and read back and compared byte for byte (dtype, shape, sparse format, stored entry order) with a separately built in-memory grid; 1260 xvg files (every '#'-count 0..13 x header length x 1..10 legends x row counts) are parsed and compared with the text, incl. single-column getter and csv round trip. Added: write/read histories that re-use the same paths and the same reader for different grids, call histories on one EnergyReader, files with repeated time stamps. Later rounds added: legends that are prefixes of earlier legends.",
    note="Legend texts without double quotes; GROMACS fixed number format."),
 }
 NOT_YET = {}
